@@ -3,7 +3,7 @@ CONSTANTS
   Versions <- VersionsAll
   Family = "sib"
   ShapeIds <- ShapesC03
-  VariantIds <- VariantsAll
+  VariantIds <- VariantsSibAll
   MaxOps = 0
   Alphabet <- NoOps
   PreOps <- PreSib
